@@ -86,11 +86,12 @@ def stats(ctx, traces):
                         st[w] += 1
                 if any(ch in e['start'] for ch in '+&% ?#='):
                     st['escaped_start'] += 1
-                if len(samples) < 3 and len(reqs) >= 2 and e['k']:
+                if len(samples) < 3 and len(reqs) >= 2 and e['k'] and e['kind'] != 'refs' and e['a'] > 0 and len(e['calls']) >= 2:
                     samples.append(dict(stack=stack, kind=e['kind'], start=e['start'], k=e['k'], a=e['a'],
                                         requests=[{k: r[k] for k in ('hop', 'n', 'last', 'cnt', 'link', 'linklast', 'code')} for r in reqs],
                                         consumer_calls=[c['name'] or c['is'] for c in e['calls']]))
-    ctx.cov['per_op'] = st
+    ctx.cov['per_op'] = dict([('list:' + k, v) for k, v in st['by_kind'].items()] + [('page_request', st['requests']), ('consumer_call', st['consumer_calls'])])
+    ctx.cov['exercised'] = st
     ctx.cov['samples'] = samples
     return st
 
